@@ -67,6 +67,22 @@ CHECKS = {
    technique="every sub-expression as root x three cone variants; tightness against an independent dependency search; sufficiency by exhaustive perturbation of all executions on the reference semantics",
    text="For every system of the family and every sub-expression as root, each of the three cone functions must return only declared inputs/states, exactly the set an independent dependency-graph search reaches, and changing any symbol outside the cone in any execution (all initial states x all input sequences up to the horizon) must never change the root's value.",
    note="Trusted: pvcore reference semantics; horizon 3 (quick) / 5 (thorough)."),
+ "C08": dict(level="exploration", engine="drv-btor", design="§4 C08",
+   technique="bounded-exhaustive enumeration of btor2 texts (operator x sorts x operand choice x negation placement x line order) evaluated under all valuations against an independent text-level btor2 interpreter",
+   text="Single- and two-operator files for every supported operator at the stated sorts, all negation placements, constants in all three bases, init/next attachment and all admissible line orders of small files are parsed by the real reader; every output/bad/constraint/init/next is evaluated under all valuations of inputs and states and compared with a reference btor2 interpreter that works on the text only; every variant with one declared sort replaced must be rejected.",
+   note="Trusted: btorref (text-level btor2 semantics written from the format definition), pvcore reference evaluator."),
+ "C09": dict(level="exploration", engine="drv-btor", design="§4 C09",
+   technique="bounded-exhaustive system enumeration plus all shipped btor2 files through write/read; positional, structural (DAG isomorphism) and exhaustive semantic comparison",
+   text="Every system of the family (S1+S3, +S2 thorough, enriched with array inits, constant states, anonymous/named signals, aliases, literal shapes) and all shipped btor2 files are written with the real writer and read back; counts, types, and every function must agree (same reference, isomorphic DAG, or equal under all valuations); explicit names must survive a further cycle.",
+   note="A pair that is neither isomorphic nor decidable by enumeration is reported as undecided, never as a violation."),
+ "C16": dict(level="exploration", engine="drv-btor", design="§4 C16",
+   technique="bounded-exhaustive enumeration of complete witnesses and concatenations through print/parse",
+   text="All complete witnesses over the stated shapes (0-2 states incl. arrays with several recorded indices, 0-2 inputs, 1-3 frames, failed sets, name classes incl. @ and #) and all concatenations of 1-3 of them are printed and parsed back; every field must be equal.",
+   note="Array contents are compared at every recorded index."),
+ "C18": dict(level="exploration", engine="drv-btor", design="§4 C18",
+   technique="deviation-bounded mutation enumeration (all single mutations; all pairs in thorough) of a corpus of valid files, run in sandboxed worker processes; accepted results deep-type-checked",
+   text="Every single token/line mutation (hostile token menu, deleted/duplicated/swapped lines, widths 0, reversed slices, huge numbers, unicode) of a corpus of valid btor2 files is fed to the real reader in worker subprocesses with memory and time limits; the outcome must be a clean failure or a system that passes the deep reference type checker; only the documented not-yet-supported markers may panic.",
+   note="Texts that declare sorts of 2^24 bits or more are legitimately slow and are counted, not judged, when they exceed the deadline."),
 }
 
 NOT_YET = {}
@@ -106,6 +122,7 @@ def main():
             {"name": "drv-smt", "path": "/verif/harness/drv-smt", "serves_properties": ["C05", "C14"], "kind_free_text": "term/command/model-value enumeration against the strict reference SMT-LIB front end smtref"},
             {"name": "drv-misc", "path": "/verif/harness/drv-misc", "serves_properties": ["C19", "C20"], "kind_free_text": "rule-instance enumeration for the e-graph rewrites; explicit-state history search over ValueSummary through the patronus_verif hooks"},
             {"name": "drv-sys", "path": "/verif/harness/drv-sys", "serves_properties": ["C07", "C11", "C17"], "kind_free_text": "explicit-state history search over the real Interpreter; system-transformation and cone-of-influence sweeps against the reference TS semantics"},
+            {"name": "drv-btor", "path": "/verif/harness/drv-btor", "serves_properties": ["C08", "C09", "C16", "C18"], "kind_free_text": "btor2 text/system/witness enumerators, reference text-level btor2 interpreter btorref, sandboxed mutation workers"},
             {"name": "drv-expr", "path": "/verif/harness/drv-expr", "serves_properties": ["C01", "C06", "C12", "C13"], "kind_free_text": "bounded-exhaustive enumeration of terms / construction histories over the real expression code"},
         ],
         "checks": checks,
